@@ -244,6 +244,30 @@ def make_manager(bat, U, cid, leader=True):
 
 
 # ---------------------------------------------------------------------------------------------------
+# snapshots: the path SyncObj uses for consumers (`_serialize()` -> pickled dump -> `_deserialize()`)
+# ---------------------------------------------------------------------------------------------------
+def snapshot_of(impl):
+    """what ends up in a dump for this consumer (pickled and unpickled, as in Serializer)"""
+    return pickle.loads(pickle.dumps(impl._serialize(), 2))
+
+
+def fresh_impl(bat, u, junk=True):
+    """an instance as a restarted / lagging node has it before the snapshot is installed: created with its
+    own autoUnlockTime `u`, possibly holding something stale"""
+    impl = bat._ReplLockManagerImpl(u)
+    if junk:
+        impl.acquire(lock_name(99), client_name(99), 0, _doApply=True)
+    return impl
+
+
+def unlock_time_of(impl):
+    return getattr(impl, "_ReplLockManagerImpl__autoUnlockTime")
+
+
+SIG_SNAPSHOT = "batteries._ReplLockManagerImpl._serialize:lock-table-missing-from-snapshot"
+
+
+# ---------------------------------------------------------------------------------------------------
 # "a holder that shows up in time never loses its lock" -- checked on a real replica at the log head
 # ---------------------------------------------------------------------------------------------------
 class KeepMonitor(object):
@@ -255,6 +279,19 @@ class KeepMonitor(object):
     def __init__(self, bat, U):
         self.U = U
         self.impl = bat._ReplLockManagerImpl(U)
+
+    def rebuild(self, bat, u):
+        """the log-head replica is replaced by one rebuilt from its snapshot (restart from a dump / install
+        on another node); the property needs the rebuilt replica to hold exactly the same locks."""
+        before, ubefore = table_of(self.impl), unlock_time_of(self.impl)
+        new = fresh_impl(bat, u)
+        new._deserialize(snapshot_of(self.impl))
+        self.impl = new
+        if table_of(new) != before or unlock_time_of(new) != ubefore:
+            return {"signature": SIG_SNAPSHOT,
+                    "what": "replica with locks %s (autoUnlockTime %s) rebuilt from its own snapshot has locks %s (autoUnlockTime %s)"
+                            % (before, ubefore, table_of(new), unlock_time_of(new))}
+        return None
 
     def apply(self, cmd):
         before = dict((e[0], (e[1], e[2])) for e in table_of(self.impl))
